@@ -28,7 +28,13 @@ RULE = ('detect: contents written by the real writers (fasta, stockholm, gff, sj
         'the same handle read twice and iterated, mutation of a read result, detect_ext with alternating what, one object written with '
         'several keyword dicts, archive/gzip round trips), each detect/ext step compared with the pure model on the content the handle '
         'holds at that moment; after every step the plugin tables (FMTS, FMTS_ALL, EPS names, ARCHIVE_EXTS, extension lists, header tables) '
-        'must be unchanged, option dicts unchanged, handles open, and a private tempfile.tempdir empty.  non-trivial = distinct case that is detected as some format, or takes a non-plain '
+        'must be unchanged, option dicts unchanged, handles open, and a private tempfile.tempdir empty; alternating histories: contents of '
+        'neighbouring formats (MMseqs2-0 / BLAST-6, ...) detected and read alternately on fresh and shared handles (detection must not '
+        'depend on what was detected before).  cli: sugar convert / convertf on real files, -f x -o x -fo.  sess: histories of seek / read / '
+        'readline / tell / detect / read on one file object of seven kinds.  rtree: real directory trees (gzip, wildcard names, nested '
+        'archives, dotted directories, downloads served by a stub) read through names, patterns and archive options.  wround: write into '
+        'an archive, read back.  dispatch / hkind / tool: stub plugins with every subset of functions, 23 kinds of file objects, the tool '
+        'option.  non-trivial = distinct case that is detected as some format, or takes a non-plain '
         'resolve branch, or carries a consumed keyword')
 TRUSTED = ['CPython io (TextIOWrapper/BytesIO/StringIO), gzip, shutil, glob, tempfile, zipfile/tarfile, pathlib: transports are '
            'differential-tested only (extra_checks), never proved',
@@ -1309,6 +1315,38 @@ def impl_wround(case):
         os.chdir(cwd0)
         shutil.rmtree(d, ignore_errors=True)
 
+def r_history_alternating(rng):
+    """Detection must not depend on what was detected before: contents of neighbouring formats (the pairs the chain order
+    separates) detected alternately on fresh and on shared handles, then read."""
+    pairs = [('mmseqs0', 'blast6'), ('mmseqs0', 'blast7'), ('blast6', 'mmseqs0'), ('mmseqs4', 'blast6'), ('infernal1', 'mmseqs0'),
+             ('genbank', 'blast6'), ('mmseqs0', 'genbank')]
+    if rng.random() < 0.7:
+        ka, kb = rng.choice(pairs)
+        items = [(synth(rng, ka), 'fts', {}), (synth(rng, kb), 'fts', {})]
+    else:
+        items = []
+        for _ in range(2):
+            w = r_writer_case(rng)
+            w.pop('kw', None)
+            items.append((write_content(w), w['what'], {}))
+    if rng.random() < 0.3:
+        items.append((synth(rng, rng.choice([k for k in SYNTH if k not in ('blast6low', 'blast10')])), 'fts', {}))
+    texts = [c for c, _, _ in items]
+    handles = [{'kind': rng.choice(['bytes', 'str']), 't': i} for i in range(len(texts))]
+    order = list(range(len(texts)))
+    seq = order + order[::-1] + [0] + [rng.randrange(len(texts)) for _ in range(rng.choice([0, 2, 4]))]
+    steps = []
+    for i in seq:
+        what = items[i][1] if rng.random() < 0.85 else rng.choice(['seqs', 'fts'])
+        if rng.random() < 0.5:
+            steps.append({'op': 'detect_fresh', 'h': i, 't': i, 'kind': rng.choice(['bytes', 'str']), 'what': what, 'sep': None, 'outfmt': None, 'offset': 0})
+        elif rng.random() < 0.7:
+            steps.append({'op': 'detect', 'h': i, 'what': what, 'sep': None, 'outfmt': None, 'offset': 0})
+        else:
+            steps.append({'op': 'read', 'h': i, 'what': items[i][1], 'rkw': {}})
+    return {'kind': 'hist', 'texts': texts, 'handles': handles, 'steps': steps}
+
+
 # ----------------------------------------------------------------------------- case generation
 
 HKINDS = ['bytes', 'str', 'fileb', 'filet', 'path', 'Path']
@@ -1406,6 +1444,8 @@ def gen_cases(rng, tier):
     # --- histories: several calls in one process on shared handles / objects / option dicts (state independence)
     for _ in range(1500 if thorough else 260):
         cases.append(r_history(rng))
+    for _ in range(600 if thorough else 60):
+        cases.append(r_history_alternating(rng))
     # --- renderer models of the soundness theorems against the real writers / the synthetic renderers
     for _ in range(1200 if thorough else 150):
         k = rng.choice(['tsv', 'csv', 'tsv', 'csv', 'fasta', 'stockholm', 'gff', 'hits'])
